@@ -1,19 +1,30 @@
 package vrt
 
-import "sort"
+// Firer is the action of a timer; it runs in controller context. (An interface rather than a func:
+// closures cannot be //go:norace.)
+type Firer interface{ FireTimer() }
 
-// Timer is a pending wake-up on the virtual clock. Fire runs in controller context.
+// FirerFunc adapts a closure (harness use only; not race-clean).
+type FirerFunc func()
+
+// FireTimer implements Firer.
+func (f FirerFunc) FireTimer() { f() }
+
+// Timer is a pending wake-up on the virtual clock.
 type Timer struct {
 	At     int64
 	seq    int
-	Fire   func()
+	fire   Firer
 	active bool
 	Desc   string
-	hid    uint64 // interleaving-independent identity
+	hid    uint64   // interleaving-independent identity
+	ra     RaceAddr // creator -> expiry edge
 }
 
 // Now returns the virtual clock (ns since the virtual epoch). In pass-through mode a process-wide
 // manual clock is used.
+//
+//go:norace
 func Now() int64 {
 	if S == nil {
 		return ManualClock
@@ -28,7 +39,9 @@ func Now() int64 {
 var ManualClock int64
 
 // AddTimer registers a wake-up d ns from now.
-func AddTimer(d int64, desc string, fire func()) *Timer {
+//
+//go:norace
+func AddTimer(d int64, desc string, fire Firer) *Timer {
 	s := S
 	if s == nil {
 		panic("vrt.AddTimer outside scheduler")
@@ -36,19 +49,40 @@ func AddTimer(d int64, desc string, fire func()) *Timer {
 	if d < 0 {
 		d = 0
 	}
+	if len(s.timers) >= cap(s.timers) {
+		panic("vrt: too many pending timers")
+	}
 	s.timerSeq++
-	t := &Timer{At: s.clock + d, seq: s.timerSeq, Fire: fire, active: true, Desc: desc}
+	t := &Timer{At: s.clock + d, seq: s.timerSeq, fire: fire, active: true, Desc: desc}
 	if c := s.cur; c != nil && !s.inCtl {
 		c.nev++
 		t.hid = mix(mix(c.stable, c.nev), c.last)
 	} else {
 		t.hid = mix(s.global, uint64(len(s.timers))+77)
 	}
-	s.timers = append(s.timers, t)
+	t.ra.Release()
+	s.timers = append(s.timers, t) // within capacity
 	return t
 }
 
+//go:norace
+func (s *Sched) removeTimer(t *Timer) {
+	n := len(s.timers)
+	for i := 0; i < n; i++ {
+		if s.timers[i] == t {
+			for j := i; j+1 < n; j++ {
+				s.timers[j] = s.timers[j+1]
+			}
+			s.timers[n-1] = nil
+			s.timers = s.timers[:n-1]
+			return
+		}
+	}
+}
+
 // StopTimer deactivates t; reports whether it was still pending.
+//
+//go:norace
 func StopTimer(t *Timer) bool {
 	s := S
 	if s == nil || t == nil {
@@ -56,18 +90,16 @@ func StopTimer(t *Timer) bool {
 	}
 	was := t.active
 	t.active = false
-	for i, x := range s.timers {
-		if x == t {
-			s.timers = append(s.timers[:i], s.timers[i+1:]...)
-			break
-		}
-	}
+	s.removeTimer(t)
 	return was
 }
 
 // TimerActive reports whether t is still pending.
+//
+//go:norace
 func TimerActive(t *Timer) bool { return t != nil && t.active }
 
+//go:norace
 func (s *Sched) timerPending() bool {
 	if len(s.timers) == 0 {
 		return false
@@ -85,6 +117,8 @@ func (s *Sched) timerPending() bool {
 
 // fireEarliest advances the clock to the earliest pending timer and fires it; ties are ordered by
 // the chooser.
+//
+//go:norace
 func (s *Sched) fireEarliest() {
 	min := int64(-1)
 	for _, t := range s.timers {
@@ -95,28 +129,29 @@ func (s *Sched) fireEarliest() {
 			min = t.At
 		}
 	}
-	var cand []*Timer
+	var cand [maxThreads]*Timer
+	nc := 0
 	for _, t := range s.timers {
 		if t.At == min {
-			cand = append(cand, t)
+			cand[nc] = t
+			nc++
 		}
 	}
-	// canonical order: by interleaving-independent identity
-	sort.Slice(cand, func(i, j int) bool { return cand[i].hid < cand[j].hid })
+	// canonical order: by interleaving-independent identity (insertion sort, no closures)
+	for i := 1; i < nc; i++ {
+		for j := i; j > 0 && cand[j].hid < cand[j-1].hid; j-- {
+			cand[j], cand[j-1] = cand[j-1], cand[j]
+		}
+	}
 	k := 0
-	if len(cand) > 1 {
-		k = s.choose(KClock, len(cand), false, nil)
+	if nc > 1 {
+		k = s.choose(KClock, nc, false, nil)
 		if s.abandoned {
 			return
 		}
 	}
 	t := cand[k]
-	for i, x := range s.timers {
-		if x == t {
-			s.timers = append(s.timers[:i], s.timers[i+1:]...)
-			break
-		}
-	}
+	s.removeTimer(t)
 	t.active = false
 	if min > s.clock {
 		s.clock = min
@@ -125,9 +160,15 @@ func (s *Sched) fireEarliest() {
 		s.res.Trace = append(s.res.Trace, Step{Thread: -1, Label: "clock", Op: "fire " + t.Desc, Clock: s.clock})
 	}
 	s.globalEvent(t.hid)
-	s.ctl(t.Fire)
+	old := s.inCtl
+	s.inCtl = true
+	t.ra.Acquire()
+	t.fire.FireTimer()
+	s.inCtl = old
 	s.globalEvent(3)
 }
 
 // PendingTimers returns the number of pending timers.
+//
+//go:norace
 func (s *Sched) PendingTimers() int { return len(s.timers) }
